@@ -189,6 +189,70 @@ def rule_m1(ctx):
     ctx.check(ok and srt, "M1-merge", c, "inputs sorted by lower bound", site(f), "merging assumes intervals sorted by their lower bound", "sorted + asserted")
 
 
+def rule_u1(ctx):
+    """Union: the numbers of a union are the numbers of ALL its alternatives; an alternative outside the recognised shapes makes the whole answer `Nothing`
+    (merge_intervals absorbs Nothing) - skipping it would report intervals that miss every number of that alternative."""
+    Z = "src/isla/z3_helpers.py"
+    f = ctx.repo.func(Z, "numeric_intervals_from_union", "C15.U1")
+    c = f"{Z}:numeric_intervals_from_union"
+    merges = [x for x in calls_in(f) if call_name(x) == "merge_intervals"]
+    if len(merges) != 1 or len(merges[0].args) != 1 or not isinstance(merges[0].args[0], ast.Starred):
+        raise Unrecognised("C15.U1", c, "merge_intervals(*<results of the alternatives>) not found")
+    a = merges[0].args[0].value
+    if isinstance(a, ast.Name):
+        d = [x for x in walk_local(f) if isinstance(x, ast.Assign) and len(x.targets) == 1 and src(x.targets[0]) == a.id]
+        if len(d) != 1:
+            raise Unrecognised("C15.U1", c, f"definition of `{a.id}` not found")
+        a = d[0].value
+    t = " ".join(src(a).split())
+    all_children = t in ("map(numeric_intervals_from_regex, regex.children())", "[numeric_intervals_from_regex(child) for child in regex.children()]",
+                         "list(map(numeric_intervals_from_regex, regex.children()))")
+    filtered = isinstance(a, (ast.ListComp, ast.GeneratorExp)) and any(g.ifs for g in a.generators) and "regex.children()" in t
+    if all_children:
+        ctx.ok("U1-union-all-alternatives", c, "every alternative contributes (Nothing is absorbing)", site(merges[0]), t[:70])
+    elif filtered or "filter(" in t:
+        cond = " ".join(src(a.generators[0].ifs[0]).split()) if filtered else t
+        ctx.viol("U1-union-all-alternatives", c, "every alternative contributes (Nothing is absorbing)", site(a),
+                 f"alternatives are filtered (`{cond[:60]}`) before merging: an alternative outside the recognised shapes is dropped instead of making the result Nothing, so "
+                 "Union([1-3], [1-9][0-9]) is reported as [(1, 3)] although 10..99 are matched")
+    else:
+        raise Unrecognised("C15.U1", c, f"arguments of merge_intervals not understood: {t[:70]}")
+    H = "src/isla/helpers.py"
+    g = ctx.repo.func(H, "merge_intervals", "C15.U1")
+    tg = " ".join(src(g).split())
+    ok = "acc.bind(" in tg and "maybe_intervals.bind(" in tg
+    if not ok:
+        raise Unrecognised("C15.U1", f"{H}:merge_intervals", "Maybe-chain (acc.bind(... maybe_intervals.bind(...))) not found")
+    ctx.ok("U1-union-all-alternatives", f"{H}:merge_intervals", "Nothing is absorbing", site(g), "both operands bound")
+
+
+def rule_s1(ctx):
+    """Use of the intervals in the solver: -sys.maxsize / sys.maxsize stand for 'unbounded' (that is what the interval functions return for signs and stars); such a
+    bound must not be emitted as a real bound, or numbers beyond 2^63 - which the grammar derives - are excluded."""
+    S = "src/isla/solver.py"
+    f = ctx.repo.func(S, "ISLaSolver.solve_smt_formulas_with_language_constraints", "C15.S1")
+    c = f"{S}:ISLaSolver.solve_smt_formulas_with_language_constraints"
+    cmps = [x for x in ast.walk(f) if isinstance(x, ast.Compare) and len(x.ops) == 1 and isinstance(x.ops[0], (ast.GtE, ast.LtE)) and src(x.left) == "repl_var"
+            and isinstance(x.comparators[0], ast.Call) and src(x.comparators[0].func) == "z3.IntVal" and src(x.comparators[0].args[0]).startswith("interval[")]
+    if len(cmps) != 2:
+        raise Unrecognised("C15.S1", c, f"interval bounds `repl_var >= / <= z3.IntVal(interval[i])` not found ({len(cmps)})")
+    for x in cmps:
+        lower = isinstance(x.ops[0], ast.GtE)
+        idx = src(x.comparators[0].args[0])
+        par = getattr(x, "_parent", None)
+        want = f"{idx} > -sys.maxsize" if lower else f"{idx} < sys.maxsize"
+        guarded = isinstance(par, ast.IfExp) and par.body is x and " ".join(src(par.test).split()) in (want, f"-sys.maxsize < {idx}" if lower else f"sys.maxsize > {idx}") \
+            and src(par.orelse) in ("z3.BoolVal(True)", "True")
+        if guarded:
+            ctx.ok("S1-infinite-bounds", c, f"{'lower' if lower else 'upper'} bound emitted only when finite", site(x), want)
+        elif not isinstance(par, ast.IfExp):
+            ctx.viol("S1-infinite-bounds", c, f"{'lower' if lower else 'upper'} bound emitted only when finite", site(x),
+                     f"`{src(x)}` is emitted unconditionally, but the interval functions use {'-' if lower else ''}sys.maxsize for 'unbounded': numbers "
+                     f"{'below -' if lower else 'above '}2^63-1 that the nonterminal derives are excluded (str.to.int(<nat>) > 9223372036854775807 becomes unsatisfiable)")
+        else:
+            raise Unrecognised("C15.S1", c, f"guard of `{src(x)}` not understood: {src(par.test)[:50]}")
+
+
 def rule_f2(ctx):
     """Literal, padding and tail cases of the interval inference: (a) a string literal contributes exactly its integer value (the empty word has none);
     (b) zero padding is removed only from the FRONT of a concatenation; (c) the open-ended answers `[d][0-9]*` / `[d][0-9]+` apply to two-element concatenations only."""
@@ -259,6 +323,12 @@ def run(ctx) -> str:
 
     ctx.guarded("R7", lambda: c05.rule_r7(ctx))
     ctx.guarded("M1", lambda: rule_m1(ctx))
+    ctx.guarded("U1", lambda: rule_u1(ctx))
+    ctx.guarded("S1", lambda: rule_s1(ctx))
+    from ..memo import check_memo_keys
+
+    # interval caches in the solver (the consumer of numeric_intervals_from_regex) are keyed injectively - a printed regex is not a key (Z3 elides deep terms as `...`)
+    ctx.guarded("S2", lambda: ctx.inventory.__setitem__("solver_memo_sites", check_memo_keys(ctx, "S2-memo-key", ["src/isla/solver.py"], min_sites=0)))
     ctx.guarded("K1", lambda: rule_k1(ctx))
     ctx.guarded("A1", lambda: rule_a1(ctx))
     ctx.guarded("C1", lambda: rule_c1(ctx))
